@@ -57,6 +57,9 @@ def build_ops():
     def add(name, arity, en, run, **kw):
         if name.split('.')[0] in ('sle', 'evp', 'ode'):
             kw.setdefault('may_raise', True)
+        if name.startswith('ode.') and not name.startswith('ode.krylov') and not name.startswith('ode.errors'):
+            # the integrators return the trajectory [initial_value, state 1, ...]: position 0 IS the initial-value argument
+            kw.setdefault('hands_back', 0 if 'splitting' in name else 1)
         ops.append(Op(name, arity, en, run, **kw))
     # ---- binary value operations
     same = lambda s, i, j: b1(O(s, i)) and b1(O(s, j)) and list(O(s, i).row_dims) == list(O(s, j).row_dims) and \
